@@ -377,7 +377,17 @@ def numberGroups : List Done → Nat → List Done
 def idPairs (ds : List Done) : List (List Nat × List Nat) :=
   ds.map fun d => (d.olds.map Frag.id, d.news.map Frag.id)
 
-/-- `commit_compaction` of the given task results + `build_manifest` of the Rewrite transaction -/
+/-- one index bitmap as `load_indices` shows it; outer `none` = load_indices panics -/
+def effOne (t : Table) (b : Option (List Nat)) : Option (Option (List Nat)) :=
+  match b with
+  | none => some none
+  | some b => match remapBitmap t.fri b with
+    | .ok b' => some (some b')
+    | .error _ => none
+
+/-- `commit_compaction` of the given task results + `build_manifest` of the Rewrite transaction.  The index list a
+    commit starts from is `load_indices()`, i.e. the bitmaps already remapped through the fragment reuse index; they
+    are written back in that form. -/
 def commit (o : Opts) (t : Table) (ds : List Done) : Except Err Table :=
   if ds.isEmpty then .ok t
   else
@@ -391,22 +401,21 @@ def commit (o : Opts) (t : Table) (ds : List Done) : Except Err Table :=
     let version := if reserve then t.version + 1 else t.version
     let maxFrag := if reserve then t.maxFrag + total else t.maxFrag
     let pairs := idPairs ds'
-    match effBitmaps t with
-    | none => .error .panic
-    | some _ =>
-    -- which indices remap_indices rewrites: the BTree index if its (effective) bitmap meets an affected fragment
+    match effOne t t.idx, effOne t t.friBitmap with
+    | none, _ => .error .panic
+    | _, none => .error .panic
+    | some idxE, some friE =>
+    -- which indices remap_indices rewrites: the BTree index if its bitmap meets an affected fragment
     let affected := ds.flatMap fun d => d.olds.map Frag.id
     let idxRewritten : Bool :=
-      needsRemap && (match t.idx with
+      needsRemap && (match idxE with
         | none => false
-        | some b => match remapBitmap t.fri b with
-          | .ok b' => b'.any affected.contains
-          | .error _ => false)
+        | some b => b.any affected.contains)
     match rewriteFragments t.frags (ds'.map fun d => ⟨d.olds, d.news⟩) (maxFrag + 1) with
     | .error e => .error e
     | .ok frags =>
       let newIdx : Except Err (Option (List Nat)) :=
-        match t.idx with
+        match idxE with
         | none => .ok none
         | some b =>
           if t.stable || idxRewritten then
@@ -418,7 +427,7 @@ def commit (o : Opts) (t : Table) (ds : List Done) : Except Err Table :=
       -- replaced right after when the remap is deferred
       let newFriB : Except Err (Option (List Nat)) :=
         if o.defer then .ok (some (ds'.flatMap fun d => d.news.map Frag.id))
-        else match t.friBitmap with
+        else match friE with
           | none => .ok none
           | some b =>
             if t.stable then
